@@ -1649,6 +1649,10 @@ class OR(LogicalOperator, ABC):
         if child is self.left:
             if when_false or (when_false is None):
                 required_vars.update(self.right._unique_variables_)
+                # The right branch is evaluated for these outputs; whatever it (or a branch nested in it) concludes
+                # reads its conclusion's variables, so outputs that differ in them are not duplicates.
+                for conc in list(self.right._conclusion_) + self.right._conclusions_of_all_descendants_:
+                    required_vars.update(conc._unique_variables_)
                 when_iam = None
             else:
                 when_iam = True
